@@ -649,3 +649,143 @@ func execC20(t *testing.T, c C20Case) (v Verdict) {
 }
 
 func TestC20(t *testing.T) { checkProp(t, "C20", "main", genC20, execC20) }
+
+// ---- C20 overlap: two RPCs inside the server chain at the same time -------------------------
+
+type C20Overlap struct {
+	Kind   int  `json:"kind"`
+	Chain  int  `json:"chain"`   // server chain length 2..6
+	ParkAt int  `json:"park_at"` // the first RPC parks inside this interceptor (before calling the next stage)
+	Ser    bool `json:"ser"`
+}
+
+func genC20Overlap(t *rapid.T) C20Overlap {
+	c := C20Overlap{Kind: rapid.SampledFrom([]int{kit.KindUnary, kit.KindBidi}).Draw(t, "kind"), Chain: rapid.IntRange(2, 6).Draw(t, "chain"), Ser: rapid.Bool().Draw(t, "ser")}
+	c.ParkAt = rapid.IntRange(0, c.Chain-1).Draw(t, "park_at")
+	return c
+}
+
+func execC20Overlap(t *testing.T, c C20Overlap) (v Verdict) {
+	var mu sync.Mutex
+	traces := map[string][]string{}
+	log := func(rpc, s string) {
+		mu.Lock()
+		traces[rpc] = append(traces[rpc], s)
+		mu.Unlock()
+	}
+	rpcOf := func(ctx context.Context) string {
+		md, _ := metadata.FromIncomingContext(ctx)
+		if v := md["rpc"]; len(v) > 0 {
+			return v[0]
+		}
+		return "?"
+	}
+	okCalls := 0
+	res := kit.Bubble(t, func() {
+		sched := kit.NewSched()
+		var uis []grpc.UnaryServerInterceptor
+		var sis []grpc.StreamServerInterceptor
+		for i := 0; i < c.Chain; i++ {
+			i := i
+			uis = append(uis, func(ctx context.Context, req any, info *grpc.UnaryServerInfo, h grpc.UnaryHandler) (any, error) {
+				r := rpcOf(ctx)
+				log(r, fmt.Sprintf("S%d>", i))
+				defer log(r, fmt.Sprintf("S%d<", i))
+				if r == "first" && i == c.ParkAt {
+					sched.Park(nil, "first")
+				}
+				return h(ctx, req)
+			})
+			sis = append(sis, func(srv any, ss grpc.ServerStream, info *grpc.StreamServerInfo, h grpc.StreamHandler) error {
+				r := rpcOf(ss.Context())
+				log(r, fmt.Sprintf("S%d>", i))
+				defer log(r, fmt.Sprintf("S%d<", i))
+				if r == "first" && i == c.ParkAt {
+					sched.Park(nil, "first")
+				}
+				return h(srv, ss)
+			})
+		}
+		svc := kit.NewSvc()
+		svc.Unary("u", func(ctx context.Context, req []byte) ([]byte, error) {
+			r := rpcOf(ctx)
+			log(r, "H>")
+			defer log(r, "H<")
+			return req, nil
+		})
+		svc.Stream("s", true, true, func(s grpcServerStream) error {
+			r := rpcOf(s.Context())
+			log(r, "H>")
+			defer log(r, "H<")
+			b, err := kit.RecvBytes(s)
+			if err != nil {
+				return err
+			}
+			return kit.SendBytes(s, b)
+		})
+		w := kit.NewWorld(kit.Topo{Kind: "direct", Serialize: c.Ser, Clients: 1}, svc, []goat.ServerOption{goat.ChainUnaryInterceptor(uis...), goat.ChainStreamInterceptor(sis...)}, nil)
+		firstMaySend := make(chan struct{})
+		call := func(name string) {
+			ctx := metadata.AppendToOutgoingContext(context.Background(), "rpc", name)
+			if c.Kind == kit.KindUnary {
+				if out, err := kit.Invoke(ctx, w.Conn(0), "u", []byte(name)); err == nil && string(out) == name {
+					mu.Lock()
+					okCalls++
+					mu.Unlock()
+				}
+				return
+			}
+			cs, err := w.Conn(0).NewStream(ctx, kit.StreamDescFor(kit.KindBidi), kit.FullMethod("s"))
+			if err != nil {
+				return
+			}
+			if name == "first" {
+				// its handler chain is parked and not reading yet: sending now would only park the connection's
+				// read loop behind it (head-of-line blocking by design) and keep the second RPC out
+				<-firstMaySend
+			}
+			_ = kit.SendBytes(cs, []byte(name))
+			_ = cs.CloseSend()
+			if out, err := kit.RecvBytes(cs); err == nil && string(out) == name {
+				mu.Lock()
+				okCalls++
+				mu.Unlock()
+			}
+			_, _ = kit.RecvBytes(cs)
+		}
+		d1 := make(chan struct{})
+		go func() { defer close(d1); call("first") }()
+		kit.Settle() // the first RPC is parked inside interceptor ParkAt
+		call("second")
+		kit.Settle()
+		close(firstMaySend)
+		sched.ReleaseGate("first")
+		<-d1
+		kit.Settle()
+		w.Shutdown()
+		kit.Settle()
+	})
+	if res.Panic != nil {
+		v.failf("panic: %v\n%s", res.Panic, res.Stack)
+	}
+	var want []string
+	for i := 0; i < c.Chain; i++ {
+		want = append(want, fmt.Sprintf("S%d>", i))
+	}
+	want = append(want, "H>", "H<")
+	for i := c.Chain - 1; i >= 0; i-- {
+		want = append(want, fmt.Sprintf("S%d<", i))
+	}
+	for _, r := range []string{"first", "second"} {
+		if strings.Join(traces[r], " ") != strings.Join(want, " ") {
+			v.failf("rpc %q (overlapping with another RPC inside the chain) ran [%s], want every interceptor exactly once in registration order [%s]", r, strings.Join(traces[r], " "), strings.Join(want, " "))
+		}
+	}
+	if okCalls != 2 {
+		v.failf("%d of 2 overlapping RPCs returned their own reply", okCalls)
+	}
+	v.Info = kit.CaseInfo{Labels: []string{"overlap", fmt.Sprintf("chain=%d", c.Chain)}, NonTrivial: true, Key: fmt.Sprintf("%+v", c), Sample: c}
+	return
+}
+
+func TestC20Overlap(t *testing.T) { checkProp(t, "C20", "overlap", genC20Overlap, execC20Overlap) }
